@@ -72,7 +72,7 @@ class Obligation:
         self.problems = []     # (kind, text, model)
         self.t0 = time.time()
 
-    def vc(self, what, pc, goal, timeout_ms=60000):
+    def vc(self, what, pc, goal, timeout_ms=60000, info=None):
         """goal must hold under pc: pc ∧ ¬goal must be unsat"""
         verdict, model, st = solve(list(pc) + [z3.Not(goal)], timeout_ms)
         self._acc(st)
@@ -84,7 +84,7 @@ class Obligation:
             if st.get("cvc5") == "unsat":
                 self.problems.append(("inconclusive", "solvers disagree on %s (z3 sat, cvc5 unsat)" % what, None))
             else:
-                self.problems.append(("cex", what, model))
+                self.problems.append(("cex", what, model, info))
             return False
         # z3 unknown: let cvc5 decide an unsat, otherwise inconclusive
         if st.get("cvc5") == "unsat":
@@ -132,7 +132,7 @@ class Obligation:
             reason = "counterexample for %s: %s" % (what, mtxt[:400])
             if cex_to_native is not None and self.ctx.native_replay is not None:
                 try:
-                    h, vals = cex_to_native(model)
+                    h, vals = cex_to_native(model, cex[0][3]) if cex[0][3] is not None else cex_to_native(model)
                     dev = self.ctx.native_replay(h, vals, "dev")
                     rel = self.ctx.native_replay(h, vals, "release")
                     self.ctx.native_runs += 2
